@@ -246,12 +246,26 @@ def reference_clean_contract():
         for p1, vs in x.ev_seq(list(e.args), p):
             if isinstance(vs, Exc):
                 yield p1, vs; continue
+            x.oblige('call(_validate_id): the identifier is validated under this property\'s own spec version', [],
+                     z3.BoolVal(len(e.args) > 1 and ast.unparse(e.args[1]) == 'self.spec_version'), True, 'call-requires')
             yield p1.fork(), Exc('ValueError', site + ':_validate_id')
             yield p1, NONE
 
     def h_gt(x, e, p, site): yield p, Str(OBJ_TYPE)
-    def h_is_object(x, e, p, site): yield p, Bool(IS_OBJECT)
-    def h_is_stix_type(x, e, p, site): yield p, Bool(z3.FreshConst(z3.BoolSort(), 'is_stix_type'))
+    def _uses_own_version(e, pos):
+        """the call hands over this property's own spec version (positionally or by keyword): IS_OBJECT etc. denote the callee under THAT version"""
+        arg = e.args[pos] if len(e.args) > pos else next((k.value for k in e.keywords if k.arg in ('stix_version', 'spec_version')), None)
+        return arg is not None and ast.unparse(arg) == 'self.spec_version'
+
+    def h_is_object(x, e, p, site):
+        # (a statement about the call site's text, independent of the path that reaches it)
+        x.oblige('call(is_object): the referenced type is looked up under this property\'s own spec version', [],
+                 z3.BoolVal(bool(e.args) and ast.unparse(e.args[0]) == 'obj_type' and _uses_own_version(e, 1)), True, 'call-requires')
+        yield p, Bool(IS_OBJECT)
+
+    def h_is_stix_type(x, e, p, site):
+        x.oblige('call(is_stix_type): the type test runs under this property\'s own spec version', [], z3.BoolVal(_uses_own_version(e, 1)), True, 'call-requires')
+        yield p, Bool(z3.FreshConst(z3.BoolSort(), 'is_stix_type'))
 
     def ens(a, r):
         if r.sort != 'tuple' or len(r.x) != 2 or r.x[1].sort != 'bool': raise SortMismatch('result shape')
